@@ -31,7 +31,7 @@ def check(pid, **kw):
 ENG = ['engine.c']
 check('C01', fuzz=True, progs=[('chk_C01', [1, 2])], level='exploration', extra=ENG,
       floors={'objects_reinitialised_while_held': 300, 'disable_flags_toggled_mid_history': 10000, 'result_codes': 5000, 'lines_err_ambiguous': 100, 'lines_err_args_too_long': 50, 'lines_blank': 50, 'holds_released_and_answered': 50, 'list_units': 100, 'lore_sequences_swept': 20, 'lines_with_terminal_lore_sequences': 5000, 'worlds_with_adjacent_group_arrays': 10000, 'full_queries_answered_full': 5000})
-check('C02', progs=[('chk_C02', [1])], level='exploration', floors={'groups_starting_where_the_previous_array_ends': 5000, 'api_queries_between_service_calls': 100000, 'commands_with_an_empty_variable_table': 10000, 'objects_with_a_previous_life': 1000, 'lines': 1000, 'abbreviated_lines': 100, 'ambiguous_lines': 50, 'implicit_write_lines': 50})
+check('C02', progs=[('chk_C02', [1])], level='exploration', floors={'flag_value_cases': 24, 'typed_names_with_the_case_bit_twin_of_a_non_letter': 5000, 'groups_starting_where_the_previous_array_ends': 5000, 'api_queries_between_service_calls': 100000, 'commands_with_an_empty_variable_table': 10000, 'objects_with_a_previous_life': 1000, 'lines': 1000, 'abbreviated_lines': 100, 'ambiguous_lines': 50, 'implicit_write_lines': 50})
 def c04_oracle_selftest(variants, seed):
     """cross-check the digit-string numeric oracle against Python's arbitrary-precision int (20k numerals per run)"""
     import random
@@ -68,34 +68,34 @@ def c04_oracle_selftest(variants, seed):
 
 ARGS = ['argcheck.c']
 check('C04', progs=[('chk_C04', [1])], level='exploration', extra=ARGS, pre=c04_oracle_selftest,
-      floors={'lines_after_a_request_served_under_other_access_flags': 10000, 'implicit_write_lines_with_an_equals_sign_in_front_of_the_arguments': 2000, 'lines_one_or_more_bytes_too_long': 3000, 'lines_to_an_implicit_write_command': 5000, 'lines_judged': 50000, 'numeric_fields_accepted': 10000, 'numeric_fields_rejected': 10000},
+      floors={'numeric_variables_that_held_a_value_with_the_same_low_half': 3000, 'numeric_variables_that_already_held_the_written_value': 3000, 'lines_after_a_request_served_under_other_access_flags': 10000, 'implicit_write_lines_with_an_equals_sign_in_front_of_the_arguments': 2000, 'lines_one_or_more_bytes_too_long': 3000, 'lines_to_an_implicit_write_command': 5000, 'lines_judged': 50000, 'numeric_fields_accepted': 10000, 'numeric_fields_rejected': 10000},
       assume=['the digit-string numeric oracle agrees with Python int on 20k numerals drawn on this run (checked, see coverage)'])
 check('C05', progs=[('chk_C05', [1])], level='exploration', extra=ARGS,
       floors={'lines_after_a_request_served_under_other_access_flags': 10000, 'implicit_write_lines_with_an_equals_sign_in_front_of_the_arguments': 2000, 'lines_one_or_more_bytes_too_long': 3000, 'lines_to_an_implicit_write_command': 5000, 'events_raised_while_the_line_ends': 3000, 'lines_judged': 50000, 'buffer_fields_accepted': 10000, 'buffer_fields_rejected': 10000, 'arguments_filling_variable_exactly': 1000, 'arguments_one_past_the_variable': 1000})
 check('C06', progs=[('chk_C06', [1, 2])], level='exploration',
-      floors={'write_lines_at_capacity_boundary': 20000, 'overlong_lines': 10000, 'read_test_pairs': 10000, 'holds_started_by_an_event_in_the_middle_of_a_write_line': 2000, 'shared_buffer_descriptors_with_a_left_over_event_buffer_size': 2000})
+      floors={'write_lines_at_capacity_boundary': 20000, 'overlong_lines': 10000, 'read_test_pairs': 10000, 'write_lines_to_a_test_only_command': 5000, 'holds_started_by_an_event_in_the_middle_of_a_write_line': 2000, 'shared_buffer_descriptors_with_a_left_over_event_buffer_size': 2000})
 check('C07', progs=[('chk_C07', [1])], level='exploration', floors={'multi_row_reads': 5000, 'round_trips_with_read_only_variables_in_the_list': 5000, 'round_trips_of_a_later_row': 3000, 'round_trips': 50000, 'round_trips_at_exact_capacity': 5000})
 check('C08', progs=[('chk_C08', [1, 2])], level='exploration', extra=ENG,
       floors={'commands_sharing_a_variable_table': 2000, 'variable_callbacks_failing': 1000, 'twin_pairs': 20000, 'gating_lines': 20000, 'read_only_snapshot_comparisons': 1000000, 'write_only_positions_checked_zero': 1000, 'complete_write_lines_to_a_command_of_more_than_32_variables': 3000})
 check('C09', progs=[('chk_C09', [1])], level='exploration',
-      floors={'api_queries_between_service_calls': 100000, 'lines': 100000, 'lines_touching_a_disabled_command': 20000, 'command_flag_flips': 10000, 'group_flag_flips': 3000, 'lines_executed': 20000, 'list_lines_checked': 10000, 'lines_with_terminal_lore_sequences': 10000, 'commands_disabled_right_after_being_served': 20000, 'groups_starting_where_the_previous_array_ends': 5000})
+      floors={'api_queries_between_service_calls': 100000, 'lines': 100000, 'lines_touching_a_disabled_command': 20000, 'command_flag_flips': 10000, 'group_flag_flips': 3000, 'lines_executed': 20000, 'list_lines_checked': 10000, 'lines_with_terminal_lore_sequences': 10000, 'handler_chains': 5000, 'empty_response_parts': 1000, 'commands_disabled_right_after_being_served': 20000, 'groups_starting_where_the_previous_array_ends': 5000})
 check('C10', progs=[('chk_C10', [1, 2])], level='exploration',
-      floors={'overflow_cells': 3000, 'sequences_with_a_bystander_event': 5000, 'automatic_texts_one_or_two_bytes_too_long': 1000, 'sequences': 20000, 'command_lists': 500, 'handler_invocations_checked': 50000, 'return_values_outside_the_enumeration': 10000})
+      floors={'overflow_cells': 3000, 'sequences_with_a_bystander_event': 5000, 'automatic_texts_one_or_two_bytes_too_long': 1000, 'sequences': 20000, 'command_lists': 500, 'handler_invocations_checked': 50000, 'return_values_outside_the_enumeration': 10000, 'release_requests_from_a_handler_of_a_command_that_is_not_held': 10000, 'service_calls_made_while_the_cell_is_held': 1000})
 check('C11', fuzz=True, progs=[('chk_C11', [1, 2, 3, 8])], level='exploration', extra=ENG,
       floors={'histories_with_contention': 500, 'contended_steps_event_holds_line': 1000, 'contended_steps_cmd_holds_line': 1000, 'event_units': 1000, 'cmd_data_units': 500, 'list_units': 200, 'write_refusals': 10000})
 check('C12', progs=[('chk_C12', [1, 2])], level='exploration', extra=ENG,
       floors={'schedule_variants_run': 20000, 'refused_read_steps_compared': 50000, 'scenarios_with_events': 2000, 'scenarios_without_events': 2000})
 check('C13', progs=[('chk_C13', [1, 2, 3, 8])], level='exploration',
-      floors={'event_variable_reads_failing': 10000, 'triggers_accepted': 100000, 'triggers_refused': 100000, 'queries_compared': 100000, 'events_failed_at_once': 10000, 'histories_with_wraparound': 1000, 'bounded_drains_while_a_command_is_held': 3000, 'holds_entered_after_a_first_response_part': 2000})
+      floors={'event_variable_reads_failing': 10000, 'triggers_accepted': 100000, 'triggers_refused': 100000, 'queries_compared': 100000, 'events_failed_at_once': 10000, 'histories_with_wraparound': 1000, 'tables_whose_failing_command_has_an_overlong_description': 5000, 'bounded_drains_while_a_command_is_held': 3000, 'holds_entered_after_a_first_response_part': 2000})
 check('C14', fuzz=True, progs=[('chk_C14', [1, 2, 3])], level='exploration', extra=ENG,
-      floors={'reinit_while_held_cases': 16, 'releases_with_other_nonzero_status': 2000, 'objects_reinitialised_while_held': 300, 'holds_with_input_queued': 200, 'holds_released_and_answered': 500, 'releases_by_api': 100, 'releases_by_event_handler': 50, 'events_triggered_during_hold': 100, 'spurious_hold_exits': 200})
+      floors={'triggers_between_a_release_request_and_the_next_service_call': 5000, 'reinit_while_held_cases': 16, 'releases_with_other_nonzero_status': 2000, 'objects_reinitialised_while_held': 300, 'holds_with_input_queued': 200, 'holds_released_and_answered': 500, 'releases_by_api': 100, 'releases_by_event_handler': 50, 'events_triggered_during_hold': 100, 'spurious_hold_exits': 200})
 check('C15', fuzz=True, progs=[('chk_C15', [1, 2, 3, 8])], level='exploration', extra=ENG,
       floors={'quiescence_probes': 5000, 'progress_measurements': 500, 'events_accepted': 5000, 'full_queries_answered_full': 50000})
 check('C18', fuzz=True, progs=[('chk_C18', [1, 2, 3])], level='exploration', extra=ENG,
-      floors={'disable_flags_toggled_mid_history': 50000, 'busy_samples_inside_event_unit': 5000, 'busy_samples_with_open_unit': 20000, 'is_busy_idle_answers': 2000, 'is_hold_samples': 50000, 'holds_entered': 100})
+      floors={'histories_with_a_mutex_interface': 5000, 'disable_flags_toggled_mid_history': 50000, 'busy_samples_inside_event_unit': 5000, 'busy_samples_with_open_unit': 20000, 'is_busy_idle_answers': 2000, 'is_hold_samples': 50000, 'holds_entered': 100})
 
 check('C19', progs=[('chk_C19', [1])], level='exploration',
-      floors={'test_events_while_the_command_machine_is_answering': 1000, 'test_texts_compared': 10000, 'test_texts_at_exact_fit': 2000, 'test_texts_one_short': 2000, 'lists_compared': 10000, 'lists_with_a_line_that_does_not_fit': 2000, 'dispatcher_cross_checks': 50000, 'test_events': 10000})
+      floors={'test_handlers_rewriting_the_text_before_NEXT': 2000, 'test_events_while_the_command_machine_is_answering': 1000, 'test_texts_compared': 10000, 'test_texts_at_exact_fit': 2000, 'test_texts_one_short': 2000, 'lists_compared': 10000, 'lists_with_a_line_that_does_not_fit': 2000, 'dispatcher_cross_checks': 50000, 'test_events': 10000})
 check('C20', progs=[('chk_C20', [1])], level='exploration', extra=ENG,
       floors={'objects_with_a_previous_life': 5000, 'worlds_with_a_second_parser_instance': 5000, 'streams': 10000, 'units_style_checked': 50000, 'units_crlf': 10000})
 
@@ -421,7 +421,7 @@ def c17_custom(pid, tier, seed, t0):
             if kind == 'mismatch' or d.get('bad_lockfree', 0):
                 path = os.path.join(rdir, 'C17-mt_stress-%s-q%d-P%d-s%d.txt' % (tag, q, P, sd))
                 open(path, 'w').write(json.dumps({'prog': 'mt_stress', 'tag': tag, 'qcap': q, 'producers': P, 'seed': sd, 'triggers': triggers, 'prop': 'C17'}) + '\n' + json.dumps(d, indent=1))
-                key = ('line-torn-on-the-wire' if d.get('wire_torn', 0) else 'unlock-by-non-owner' if d.get('unlock_errors', 0) else 'state-changed-while-another-thread-held-the-mutex' if d.get('frozen_violations', 0) else
+                key = ('line-torn-on-the-wire' if d.get('wire_torn', 0) else 'event-line-corrupted' if d.get('event_lines_bad', 0) else 'unlock-by-non-owner' if d.get('unlock_errors', 0) else 'state-changed-while-another-thread-held-the-mutex' if d.get('frozen_violations', 0) else
                        'api-status-not-a-documented-one' if d.get('odd_status', 0) else ('accepted-not-delivered' if any(x[0] > x[2] for x in d['per_producer']) else 'delivered-not-accepted') if d.get('producers_with_mismatch', 0) else 'lock-free-query-wrong')
                 viols.append({'prop': 'C17', 'key': key, 'case': '%s q%d P%d seed %d' % (tag, q, P, sd), 'msg': 'per producer [accepted, refused, delivered] = %s; unlock errors %d, frozen-state violations %d of %d checks' % (d['per_producer'], d.get('unlock_errors', 0), d.get('frozen_violations', 0), d.get('frozen_checks', 0)), 'replay': path})
         elif kind == 'race':
